@@ -42,6 +42,7 @@ import (
 	"github.com/uber/kraken/lib/persistedretry"
 	"github.com/uber/kraken/lib/persistedretry/writeback"
 	"github.com/uber/kraken/lib/store"
+	"github.com/uber/kraken/lib/store/base"
 	"github.com/uber/kraken/localdb"
 	"github.com/uber/kraken/origin/blobserver"
 	"github.com/uber/kraken/utils/httputil"
@@ -423,18 +424,64 @@ func (o *origin) do(method, path string, hdr map[string]string, body []byte) (in
 	return rec.Code, rec.Header(), rec.Body.Bytes()
 }
 
-// cacheBytes returns the blob as the origin cache holds it.
-func (o *origin) cacheBytes(blob int) ([]byte, bool) {
-	f, err := o.cas.GetCacheFileReader(blobDig[blob].Hex())
-	if err != nil {
-		return nil, false
+// cacheBytes returns the blob as the origin cache holds it. The store API is
+// asked first; a miss there is double-checked on disk, because a reader can get a
+// transient "not found" while another goroutine's LRU eviction drops the entry of
+// a (persisted, hence undeletable) file from the in-memory map. The oracle is
+// about the local copy, so the file on disk decides.
+func (o *origin) cacheBytes(blob int) (data []byte, ok bool, viaDisk bool) {
+	hex := blobDig[blob].Hex()
+	if f, err := o.cas.GetCacheFileReader(hex); err == nil {
+		b, err := io.ReadAll(f)
+		f.Close()
+		if err == nil {
+			return b, true, false
+		}
 	}
-	defer f.Close()
-	b, err := io.ReadAll(f)
-	if err != nil {
-		return nil, false
+	var found string
+	filepath.Walk(filepath.Join(o.w.dir, "cache"), func(p string, info os.FileInfo, err error) error {
+		if err == nil && info.IsDir() && info.Name() == hex {
+			found = filepath.Join(p, base.DefaultDataFileName)
+			return filepath.SkipDir
+		}
+		return nil
+	})
+	if found == "" {
+		return nil, false, true
 	}
-	return b, true
+	b, err := os.ReadFile(found)
+	if err != nil {
+		return nil, false, true
+	}
+	return b, true, true
+}
+
+// dump lists the cache tree and the write-back table (for violation reports).
+func (o *origin) dump() string {
+	var sb strings.Builder
+	root := filepath.Join(o.w.dir, "cache")
+	filepath.Walk(root, func(p string, info os.FileInfo, err error) error {
+		if err == nil && !info.IsDir() {
+			rel, _ := filepath.Rel(root, p)
+			fmt.Fprintf(&sb, "    cache/%s (%d bytes)\n", rel, info.Size())
+		}
+		return nil
+	})
+	var rows []struct {
+		NS     string `db:"namespace"`
+		Name   string `db:"name"`
+		Status string `db:"status"`
+		Fail   int    `db:"failures"`
+	}
+	if err := o.db.Select(&rows, `SELECT namespace, name, status, failures FROM writeback_task`); err == nil {
+		for _, r := range rows {
+			fmt.Fprintf(&sb, "    task %s/%s status=%s failures=%d\n", r.NS, r.Name[:12], r.Status, r.Fail)
+		}
+		if len(rows) == 0 {
+			sb.WriteString("    (no write-back tasks stored)\n")
+		}
+	}
+	return sb.String()
 }
 
 // ---------------------------------------------------------------------------
@@ -537,8 +584,11 @@ func runOnce(c Case) (out outcome) {
 				}
 				continue
 			}
-			v, ok := o.cacheBytes(a.blob)
+			v, ok, viaDisk := o.cacheBytes(a.blob)
 			if ok && bytes.Equal(v, blobData[a.blob]) {
+				if viaDisk {
+					cls["store-api-missed-blob-that-is-on-disk"] = true
+				}
 				continue
 			}
 			info := acked[a]
@@ -555,8 +605,8 @@ func runOnce(c Case) (out outcome) {
 			case c.Split && acked[other] != nil && inBackend(other):
 				sig += " [write-back for another namespace cleared the persist flag]"
 			}
-			return fmt.Sprintf("%s\n  %s: blob %d namespace %s acknowledged by %s at step %d; %s; backend %s does not have it (deletion in commit window: %q)",
-				sig, where, a.blob, nsNames[a.ns], info.how, info.step, state, nsNames[a.ns], info.inWindow)
+			return fmt.Sprintf("%s\n  %s: blob %d namespace %s acknowledged by %s at step %d; %s; backend %s does not have it (deletion in commit window: %q)\n  blob %d = %s\n  origin state:\n%s",
+				sig, where, a.blob, nsNames[a.ns], info.how, info.step, state, nsNames[a.ns], info.inWindow, a.blob, blobDig[a.blob].Hex(), o.dump())
 		}
 		return ""
 	}
@@ -764,7 +814,7 @@ func runOnce(c Case) (out outcome) {
 			}
 			time.Sleep(time.Duration(ms) * time.Millisecond)
 		case opTouch:
-			if _, ok := o.cacheBytes(op.Blob); ok {
+			if _, ok, _ := o.cacheBytes(op.Blob); ok {
 				cls["touch-cached-blob"] = true
 			}
 		}
